@@ -1,6 +1,7 @@
 """C01 part (integrator): operands that share limb storage without being the same object, and the carry ripple of the
 chunked long-by-short schoolbook loop of mpn_mul (un > 1000, vn < MUL_KARATSUBA_THRESHOLD)."""
 from genlib import *
+from props import c01_algo as algo
 B = 1 << 64
 def gen_ops(rng, tier, ctx=None):
     # a times a view of its own low k limbs (mpz_roinit_n): same pointer, different sizes, every regime
@@ -23,3 +24,64 @@ def gen_ops(rng, tier, ctx=None):
                 for _ in range(40):
                     u = rrandomb(rng, 64 * un) | 1 << (64 * un - 1); v = rrandomb(rng, 64 * vn) | 1 << (64 * vn - 1)
                     yield "mpn_mul %s %s" % (vec(limbs_of(u, un)), vec(limbs_of(v, vn)))
+
+    # Toom evaluation/interpolation corner cases: operands assembled from BLOCKS of the split size of each Toom variant, the
+    # blocks taken from a palette (zero, one small limb, all ones, ones ending j bits below the block boundary, top bit only,
+    # random) and from structures that make an evaluation point vanish (a(-1) = 0: a0 + a2 = a1 + a3) or carry out (a(1), a(2)).
+    T = algo.thresholds(ctx)[0]
+    def block(kind, sn):
+        if kind == "zero": return 0
+        if kind == "small": return rng.choice([1, 3, 4, 1000])
+        if kind == "ones": return B ** sn - 1
+        if kind == "ones-j": return (1 << (64 * sn - rng.choice([1, 2, 3, 4]))) - 1
+        if kind == "top": return 1 << (64 * sn - 1)
+        if kind == "one": return 1
+        return rng.getrandbits(64 * sn)
+    palette = ["zero", "small", "ones", "ones-j", "ones-j", "top", "one", "rand"]
+    def assemble(n, k, kinds):
+        sn = (n + k - 1) // k; x = 0
+        for i, kd in enumerate(kinds): x |= (block(kd, sn) % B ** sn) << (64 * sn * i)
+        x %= B ** n
+        return x | 1 << (64 * n - 1) if x >> (64 * (n - 1)) == 0 and kinds[-1] != "small" else (x or 1)
+    def fix(x, n):                           # exactly n limbs, top limb non-zero
+        x %= B ** n
+        return x if x >> (64 * (n - 1)) else x | rng.randrange(1, 5) << (64 * (n - 1))
+    sq = [(T["SQR_KARATSUBA_THRESHOLD"], 2), (T["SQR_TOOM3_THRESHOLD"], 3), (T["SQR_TOOM4_THRESHOLD"], 4), (T["SQR_TOOM8_THRESHOLD"], 8)]
+    mu = [(T["MUL_KARATSUBA_THRESHOLD"], 2), (T["MUL_TOOM3_THRESHOLD"], 3), (T["MUL_TOOM4_THRESHOLD"], 4), (T["MUL_TOOM8H_THRESHOLD"], 8)]
+    reps = 6 if tier == "quick" else 40
+    for table, ops in ((sq, ("mpn_sqr %s", "mpz_mul 3 %s %s")), (mu, ("mpn_mul_n %s %s", "mpz_mul 0 %s %s"))):
+        for idx, (th, k) in enumerate(table):
+            hi = table[idx + 1][0] - 1 if idx + 1 < len(table) else th + 90
+            for n in sorted({th, th + 2, th + 5, (th + hi) // 2, hi - 3, hi}):
+                if n < 4 or n > 700: continue
+                sn = (n + k - 1) // k
+                for r in range(reps):
+                    kinds = [rng.choice(palette) for _ in range(k)]
+                    a = fix(assemble(n, k, kinds), n)
+                    if r % 3 == 1 and k >= 4:        # a0 + a2 = a1 + a3 (blocks of sn limbs): the evaluation at -1 is exactly zero
+                        a0, a1, a2 = rng.getrandbits(64 * sn - 2), rng.getrandbits(64 * sn - 2), rng.getrandbits(64 * sn - 3)
+                        a3 = a0 + a2 - a1
+                        if 0 < a3 < B ** max(1, n - 3 * sn):
+                            a = a0 | a1 << (64 * sn) | a2 << (128 * sn) | a3 << (192 * sn)
+                        else:
+                            m = rng.getrandbits(64 * min(sn, max(1, n - sn - 1))) | 1; a = fix(m * (B ** sn + 1), n) if (m * (B ** sn + 1)).bit_length() <= 64 * n else a
+                    if r % 3 == 2 and k >= 3:        # ones ending 3 bits below a block boundary + a short block two places higher
+                        a = ((1 << (64 * sn - 3)) - 1) | rng.choice([3, 4, 1000]) << (128 * sn)
+                        if a.bit_length() > 64 * n or a >> (64 * (n - 1)) == 0: a = fix(a | rng.getrandbits(64 * n) << (192 * sn), n)
+                    if "sqr" in ops[0]:
+                        if a >> (64 * (n - 1)): yield ops[0] % vec(limbs_of(a, n))
+                        yield ops[1] % (hx(a), hx(a))
+                    else:
+                        b = fix(assemble(n, k, [rng.choice(palette) for _ in range(k)]), n)
+                        if a >> (64 * (n - 1)): yield ops[0] % (vec(limbs_of(a, n)), vec(limbs_of(b, n)))
+                        yield ops[1] % (hx(a), hx(-b))
+    # unbalanced shapes: Toom-3.2 / 4.2 / 5.3 regions of mpn_mul (un : vn about 3:2, 2:1, 5:3), same block palette on both operands
+    for un, vn, ku, kv in [(250, 145, 5, 3), (200, 116, 5, 3), (260, 150, 5, 3), (150, 100, 3, 2), (180, 118, 3, 2), (160, 70, 4, 2), (240, 100, 4, 2), (120, 50, 4, 2), (300, 175, 5, 3)]:
+        for r in range(reps):
+            sn = (un + ku - 1) // ku
+            a = fix(assemble(un, ku, [rng.choice(palette) for _ in range(ku)]), un)
+            b = fix(assemble(vn, kv, [rng.choice(palette) for _ in range(kv)]), vn)
+            if r % 2 == 1:
+                a = fix(((1 << (64 * sn - 3)) - 1) << (64 * sn) | rng.choice([4, 1000]) << (192 * sn) | rng.getrandbits(64 * sn), un)
+            yield "mpn_mul %s %s" % (vec(limbs_of(a, un)), vec(limbs_of(b, vn)))
+            yield "mpz_mul 0 %s %s" % (hx(a), hx(b))
